@@ -187,7 +187,8 @@ def run_read(ctx, case):
             v[:] = raw
     ctx.feature(("read", len(shape), stored, dt, mvclass, case["fill"], case["flavour"], marking))
     prog = arr.new_program(arr.NC_LIBS, working_dir=d)
-    args = {"InFileName": path, "InFieldName": "var"}
+    # every other case names its file relative to the program's working directory (the same name in every directory)
+    args = {"InFileName": path if case["rseed"] % 2 else os.path.basename(path), "InFieldName": "var"}
     if dt:
         args["DataType"] = dt
     if mv is not None:
@@ -337,7 +338,8 @@ def run_write(ctx, case):
             ov = old.createVariable("Stale", "f8", tuple(info["dims"]))
             ov[:] = numpy.ones(shape)
         ctx.count("writes_over_an_older_dataset")
-    out = arr.invoke(prog, "EEMSWrite", "W", {"OutFileName": opath, "OutFieldNames": list(names), "DimensionFileName": tpath, "DimensionFieldName": "tmpl"})
+    rel = (lambda p_: os.path.basename(p_)) if case["rseed"] % 2 == 0 else (lambda p_: p_)       # relative to the working directory in every other case
+    out = arr.invoke(prog, "EEMSWrite", "W", {"OutFileName": rel(opath), "OutFieldNames": list(names), "DimensionFileName": rel(tpath), "DimensionFieldName": "tmpl"})
     mkey = "first-" + mclasses[0] + ("+later-mask" if any(m == "random" for m in mclasses[1:]) else "")
     if not out.ok:
         ctx.fail("write:raises-%s:%s" % (out.inner() or out.err, mkey), {"error": str(out.exc)[:400], "masks": mclasses, "dtypes": [str(a.dtype) for a in arrays]})
@@ -382,7 +384,7 @@ def run_write(ctx, case):
     for k, nm in enumerate(names):
         a = arrays[k]
         integer = a.dtype.kind in "iu"
-        o = arr.invoke(prog, "EEMSRead", "Back%d" % k, {"InFileName": opath, "InFieldName": nm, "DataType": "Integer" if integer else "Float"})
+        o = arr.invoke(prog, "EEMSRead", "Back%d" % k, {"InFileName": rel(opath), "InFieldName": nm, "DataType": "Integer" if integer else "Float"})
         if not o.ok:
             ctx.fail("roundtrip:read-raises-%s" % (o.inner() or o.err), {"error": str(o.exc)[:300]})
             return
